@@ -39,16 +39,15 @@ fn mh_library(n: usize, seed: Option<u64>) -> Value {
     }
     let acc: Vec<String> = s.chains.iter().map(|c| rng_fp(&c.rng)).collect();
     let prop: Vec<String> = s.chains.iter().map(|c| {
+        // one sample only: how many variates a call consumes beyond its output is not specified
         let mut p = c.proposal.clone();
-        let mut v = p.sample(&[0.0, 0.0]);
-        v.extend(p.sample(&[0.0, 0.0]));
-        vec_fp(&v)
+        vec_fp(&p.sample(&[0.0, 0.0]))
     }).collect();
     // what the library's proposal would produce if it were seeded exactly like the acceptance generator
     let accasprop: Vec<String> = s.chains.iter().map(|c| {
         let mut r = c.rng.clone();
         let nrm = Normal::new(0.0f64, std).unwrap();
-        let v: Vec<f64> = (0..4).map(|_| nrm.sample(&mut r) + 0.0).collect();
+        let v: Vec<f64> = (0..2).map(|_| nrm.sample(&mut r) + 0.0).collect();
         vec_fp(&v)
     }).collect();
     // trajectories from the common start: the sequence of proposals and acceptance draws decides them
